@@ -266,6 +266,8 @@ type worker struct {
 	stats      map[string]*classStats
 	viol       map[gkey]*agg
 	nontrivial int
+
+	estimateChecks int
 	flips      int
 	multiCoin  int
 	skipped    int
@@ -314,6 +316,49 @@ func (wk *worker) violate(k gkey, order [2]int, mask int, msg func() (string, in
 	a.andMask &= mask
 }
 
+// checkEstimate compares txsizes.EstimateVirtualSize with the harness's own
+// worst-case signed size for the same inputs and outputs.
+func (wk *worker) checkEstimate(ui int, u *unit, ins []inType, outs []*wire.TxOut, changeLen int) {
+	oc := u.oc
+	wk.estimateChecks++
+	est := txsizesEstimate(ins, outs, changeLen)
+	own := worstVsize(ins, oc.n, oc.bytes, changeLen, 64)
+	slack := slackVsize(ins)
+	if est >= own && est <= own+slack {
+		return
+	}
+	clause := "estimate:above-true-worst-case"
+	if est < own {
+		clause = "estimate:below-true-worst-case"
+	}
+	change := "no"
+	chgName := "no change output"
+	if changeLen > 0 {
+		change = "yes"
+		chgName = fmt.Sprintf("%s change output (%d-byte script)", inNames[u.chg], changeLen)
+	}
+	wk.violate(gkey{clause, change, oc.class}, [2]int{ui, -len(ins)}, typeMask(ins), func() (string, interface{}) {
+		ss := make([]int, len(ins))
+		wit := make([][]int, len(ins))
+		for i, t := range ins {
+			ss[i], wit[i] = worstIn(t, 64)
+		}
+		nOut, ob := oc.n, oc.bytes
+		if changeLen > 0 {
+			nOut++
+			ob += outBytes(changeLen)
+		}
+		weight := txWeight(ss, wit, nOut, ob)
+		d := map[string]interface{}{
+			"inputs": seqNames(ins), "requested_outputs": oc.String(), "change": chgName,
+			"txsizes_estimate_vB": est, "own_worst_case_vB": own, "own_worst_case_weight": weight,
+			"allowed_slack_vB": slack, "own_worst_sigscript_lengths": ss, "own_worst_witness_item_lengths": wit,
+		}
+		return fmt.Sprintf("inputs %s, %s, %s: txsizes.EstimateVirtualSize = %d vB; harness worst case (72-byte DER + sighash byte and 33-byte key for ECDSA inputs, 64-byte taproot signature; sigScript lengths %v, witness item lengths %v) has weight %d = %d vB; allowed range [%d, %d+%d]",
+			seqNames(ins), oc, chgName, est, ss, wit, weight, own, own, own, slack), d
+	})
+}
+
 // txsizesEstimate is the wallet's worst-case size estimate for the inputs,
 // requested outputs and (changeLen > 0) a change output.
 func txsizesEstimate(ins []inType, outs []*wire.TxOut, changeLen int) int {
@@ -341,6 +386,17 @@ func (wk *worker) do(ui int, u *unit) {
 	dust := refDust(chgScript, 1000)
 	prefix := u.seq[:u.k]
 
+	// (g)/(h): the wallet's size estimate against the harness's own worst
+	// case, for every prefix of the sequence, with and without change.
+	if u.k == 1 {
+		estOuts := oc.build()
+		for k := 1; k <= len(u.seq); k++ {
+			for _, cl := range []int{chgLen, 0} {
+				wk.checkEstimate(ui, u, u.seq[:k], estOuts, cl)
+			}
+		}
+	}
+
 	// Boundary grid from the harness's own size arithmetic.
 	tset := map[int64]bool{}
 	schnorrs := []int{64}
@@ -355,6 +411,10 @@ func (wk *worker) do(ui int, u *unit) {
 			tset[oc.sum+wc+dust-1] = true
 			tset[oc.sum+wc+dust] = true
 			continue
+		}
+		if sl == 64 {
+			// exactly what the insufficient-funds clause counts as covered
+			tset[oc.sum+refFee(u.rate, worstVsize(prefix, oc.n, oc.bytes, chgLen, 64)+slackVsize(prefix))] = true
 		}
 		for _, d := range deltas {
 			tset[oc.sum+nc+d] = true      // just covers a transaction without change
@@ -501,50 +561,36 @@ func (wk *worker) eval(order [2]int, u *unit, coins []coin, outs []*wire.TxOut, 
 		st.Insufficient++
 		wk.outcomes["insufficient-funds"]++
 		// Insufficient funds is only right if no prefix of the offered
-		// coins covers the outputs plus the fee of the worst-case signed
-		// transaction without a change output.
+		// coins covers the outputs plus the required fee: the rate applied
+		// to the worst-case size WITH a change output (own arithmetic) plus
+		// the slack granted to a worst-case estimator's conventions.
 		var run int64
-		coveredNC, coveredWC, coveredWallet := 0, 0, 0
+		covered := 0
 		var rows []string
 		for k := 1; k <= len(coins); k++ {
 			run += coins[k-1].val
-			ncV := worstVsize(types[:k], oc.n, oc.bytes, 0, 64)
 			wcV := worstVsize(types[:k], oc.n, oc.bytes, chgLen, 64)
-			walV := txsizesEstimate(types[:k], outs, chgLen)
-			if coveredNC == 0 && run >= oc.sum+refFee(u.rate, ncV) {
-				coveredNC = k
+			slack := slackVsize(types[:k])
+			need := oc.sum + refFee(u.rate, wcV+slack)
+			if covered == 0 && run >= need {
+				covered = k
 			}
-			if coveredWC == 0 && run >= oc.sum+refFee(u.rate, wcV) {
-				coveredWC = k
-			}
-			if coveredWallet == 0 && run >= oc.sum+refFee(u.rate, walV) {
-				coveredWallet = k
-			}
-			rows = append(rows, fmt.Sprintf("first %d coin(s) total %d: worst-case signed size without change %d vB -> required %d+%d=%d; with change %d vB -> %d; wallet estimate (txsizes, always with change) %d vB -> %d",
-				k, run, ncV, oc.sum, refFee(u.rate, ncV), oc.sum+refFee(u.rate, ncV), wcV, oc.sum+refFee(u.rate, wcV), walV, oc.sum+refFee(u.rate, walV)))
+			rows = append(rows, fmt.Sprintf("first %d coin(s) total %d: own worst-case signed size with change %d vB + slack %d vB -> required %d+%d=%d; wallet estimate txsizes.EstimateVirtualSize %d vB -> %d",
+				k, run, wcV, slack, oc.sum, refFee(u.rate, wcV+slack), need, txsizesEstimate(types[:k], outs, chgLen), oc.sum+refFee(u.rate, txsizesEstimate(types[:k], outs, chgLen))))
 		}
-		if coveredNC > 0 {
-			window := "below-change-fee"
-			switch {
-			case coveredWallet > 0:
-				window = "above-wallet-change-fee"
-			case coveredWC > 0:
-				window = "within-change-fee-overestimate"
-			}
-			wk.violate(gkey{"insufficient:although-covered:" + window, "-", oc.class}, order, typeMask(types), func() (string, interface{}) {
-				init := txsizes.EstimateVirtualSize(0, 0, 1, 0, outs, chgLen)
+		if covered > 0 {
+			wk.violate(gkey{"insufficient:although-covered", "-", oc.class}, order, typeMask(types), func() (string, interface{}) {
 				d := describe(u, coins, chgLen)
 				d.Detail["result"] = err.Error()
 				d.Detail["input_source_targets_requested"] = calls
 				d.Detail["per_prefix"] = rows
-				d.Detail["wallet_initial_estimate_vB_one_p2wpkh_input_with_change"] = init
-				d.Detail["covering_prefix_without_change"] = coveredNC
-				return fmt.Sprintf("%s: reported \"%v\" although the first %d coin(s) cover the outputs plus the fee of the worst-case signed transaction without change. %s. Input source was asked for targets %v; the wallet's first target assumes one P2WPKH input and a change output (%d vB -> %d)",
-					head(), err, coveredNC, strings.Join(rows, "; "), calls, init, oc.sum+refFee(u.rate, init)), d
+				d.Detail["covering_prefix"] = covered
+				return fmt.Sprintf("%s: reported \"%v\" although the first %d coin(s) cover the outputs plus the fee of the worst-case signed transaction with a change output (incl. estimator slack). %s. Input source was asked for targets %v",
+					head(), err, covered, strings.Join(rows, "; "), calls), d
 			})
 		}
 		wk.sample(order[0], 18, func() string {
-			return fmt.Sprintf("%s -> %v (covered without change by prefix: %d)", head(), err, coveredNC)
+			return fmt.Sprintf("%s -> %v (covering prefix: %d)", head(), err, covered)
 		})
 		return 0, 0, altered
 	}
@@ -858,7 +904,7 @@ func Run(args []string) {
 	tot := &classStats{}
 	viol := map[gkey]*agg{}
 	outcomes := map[string]int{}
-	nontrivial, flips, multi, skipped, maxInputs := 0, 0, 0, 0, 0
+	nontrivial, flips, multi, skipped, maxInputs, estimateChecks := 0, 0, 0, 0, 0, 0
 	sampleAt := map[int]string{}
 	for _, wk := range wks {
 		for c, s := range wk.stats {
@@ -892,6 +938,7 @@ func Run(args []string) {
 			sampleAt[k] = v
 		}
 		nontrivial += wk.nontrivial
+		estimateChecks += wk.estimateChecks
 		flips += wk.flips
 		multi += wk.multiCoin
 		skipped += wk.skipped
@@ -966,15 +1013,17 @@ func Run(args []string) {
 	run.Assumption = []string{
 		"'the rate applied to a size' is rate*vsize/1000 in whole satoshis (rounded down), as the wallet's own fee formula does",
 		"'worst-case size estimate' in the upper fee bound is txsizes.EstimateVirtualSize for the selected inputs, the requested outputs and a change output of the change script's size (the estimate always includes the change output, also when the change was dropped as dust); the dust threshold is that of the change script at 1000 sat/kvB",
-		"'required fee' in the insufficient-funds clause is the rate applied to the harness's own worst-case signed size WITHOUT change output (72-byte DER + 33-byte key for ECDSA inputs, 64-byte signature for taproot key spends) over every prefix of the offered coin order",
+		"'required fee' in the insufficient-funds clause is the rate applied to the harness's own worst-case signed size WITH a change output (72-byte DER + sighash byte + 33-byte key for ECDSA inputs, 64-byte signature for taproot key spends) plus a slack of ceil((witness inputs + taproot inputs + 3)/4) vB for estimator conventions, over every prefix of the offered coin order",
+		"clauses (g)/(h): txsizes.EstimateVirtualSize must lie in [own worst case, own worst case + slack] for every prefix of every coin sequence, every requested output list and every change type (and without change)",
 		"coins are offered in a fixed order by an input source with the contract of wallet.makeInputSource; keys are compressed; taproot coins are BIP86 key-spend",
 	}
 	cov := ev.Coverage{
 		"evaluations":         tot.Evaluations,
 		"distinct_nontrivial": nontrivial,
 		"rule":                "every case is a distinct tuple (requested outputs, fee rate, ordered coin sequence, boundary prefix k, change script type, total of the first k coins); non-trivial = the authored transaction needed >= 2 coins, or the case sits next to (1 sat from) a case of the same tuple with a different outcome (insufficient / no change / change / number of inputs), i.e. on a decision boundary of the implementation",
-		"grid": fmt.Sprintf("requested outputs: %s (each %d sat); fee rates %v sat/kvB; coin sequences: all %d ordered sequences of length 1..%d over {p2pkh, nested p2wpkh, p2wpkh, p2tr}; for each sequence each boundary prefix length k; change script of each of the 4 types; total of the first k coins = sum(outputs) + X. Full grid: X = F + delta, delta in %v, F in {own worst-case fee without change, own worst-case fee with change, own worst-case fee with change + dust threshold of the change script}, for prefixes containing p2tr additionally with F computed for a 65-byte taproot signature. Spec grid: the same without the middle F. Lean grid: X in {fee without change, fee with change + dust - 1, fee with change + dust}. %s. Coins before the boundary coin get sum(outputs)/k + their own marginal fee (so k coins are needed), coins after it %d sat",
+		"grid": fmt.Sprintf("requested outputs: %s (each %d sat); fee rates %v sat/kvB; coin sequences: all %d ordered sequences of length 1..%d over {p2pkh, nested p2wpkh, p2wpkh, p2tr}; for each sequence each boundary prefix length k; change script of each of the 4 types; total of the first k coins = sum(outputs) + X. Full grid: X = F + delta, delta in %v, F in {own worst-case fee without change, own worst-case fee with change, own worst-case fee with change + dust threshold of the change script}, for prefixes containing p2tr additionally with F computed for a 65-byte taproot signature. Every full/spec grid also contains X = own worst-case fee with change incl. estimator slack (the smallest total the insufficient-funds clause counts as covered). Spec grid: the same without the middle F. Lean grid: X in {fee without change, fee with change + dust - 1, fee with change + dust}. %s. Coins before the boundary coin get sum(outputs)/k + their own marginal fee (so k coins are needed), coins after it %d sat",
 			strings.Join(ocNames, "; "), outAmount, rates, nseq, maxLen, deltas, gridRule, laterCoin),
+		"estimate_vs_own_worst_case_checks":    estimateChecks,
 		"work_units":                           len(units),
 		"coin_sequences":                       nseq,
 		"successes":                            tot.Successes,
